@@ -268,7 +268,7 @@ class Labware:
 
             self._volumes[idx] = v_new
 
-            if composition is not None and self._composition is not None:
+            if composition is not None and self._composition is not None and volume > 0:
                 assert isinstance(composition, dict), "Well compositions must be given as dicts"
                 # update the volumentric composition for this well
                 original_composition = self.get_well_composition(well)
